@@ -409,6 +409,85 @@ theorem negPairs_sum_fx (σ : String → Int) : ∀ ks, SignOks ks → InBs σ k
       omega
 end
 
+mutual
+/-- the negation of a model with well-formed fixed nodes has well-formed fixed nodes -/
+theorem fixOk_negate : ∀ p, FixOk p → FixOk (negate p)
+  | .leaf i b, _ => by simp [negate, FixOk]
+  | .node i b s v ks m, h => by
+      have ⟨hb, hk⟩ : (b.lo = b.hi → (b.lo = 0 ∨ b.lo = 1) ∧ m.gen = false) ∧ FixOks ks := by simpa [FixOk] using h
+      have hk' : ∀ k ∈ ks, FixOk k := (FixOks_iff ks).1 hk
+      have hsorted : ∀ k ∈ sortById ks, FixOk k := fun k hk'' => hk' k ((sortById_perm ks).mem_iff.1 hk'')
+      have hnp := fixOk_negPairs ks hk'
+      have hnegs : ∀ k ∈ (sortPairs (negPairs ks)).map (·.2), FixOk k := by
+        intro k hk''
+        obtain ⟨p, hp, rfl⟩ := List.mem_map.1 hk''
+        exact hnp p ((List.mergeSort_perm _ _).mem_iff.1 hp)
+      have hgrp : ∀ l : List P, (∀ a ∈ l, a.isLeaf = true) → FixOk (negGroup l) := fun l hl => by
+        simp only [negGroup, FixOk]
+        refine ⟨by simp, (FixOks_iff l).2 (fun a ha => ?_)⟩
+        have := hl a ha
+        cases a with
+        | leaf => simp [FixOk]
+        | node => simp [isLeaf] at this
+      have hatoms : ∀ a ∈ (sortById ks).filter (·.isLeaf), a.isLeaf = true := fun a ha => (List.mem_filter.1 ha).2
+      have hnb : ∀ (s' v' : Int) (ks' : List P), (∀ k ∈ ks', FixOk k) →
+          FixOk (.node (if m.gen then genId (sortById ks) (1 - v) (some (-s)) else i)
+            (if m.gen then ⟨0, 1⟩ else if b.lo = b.hi then ⟨1 - b.hi, 1 - b.lo⟩ else b) s' v' ks' { gen := m.gen }) := by
+        intro s' v' ks' hks'
+        simp only [FixOk]
+        refine ⟨?_, (FixOks_iff ks').2 hks'⟩
+        by_cases hg : m.gen = true
+        · simp [hg]
+        · have hg' : m.gen = false := by simpa using hg
+          by_cases hfx : b.lo = b.hi
+          · have := (hb hfx).1
+            simp only [hg', Bool.false_eq_true, if_false, hfx, if_true]
+            intro _
+            refine ⟨?_, trivial⟩
+            rcases this with h0 | h1 <;> omega
+          · simp only [hg', Bool.false_eq_true, if_false, hfx]
+            intro hc; exact absurd hc (by simp)
+      simp only [negate]
+      split
+      · split
+        · exact hnb _ _ _ hnegs
+        · split
+          · apply hnb
+            intro k hk''
+            rcases List.mem_append.1 hk'' with h' | h'
+            · exact hnegs k h'
+            · simp at h'; subst h'; exact hgrp _ hatoms
+          · split
+            · apply hnb
+              intro k hk''
+              rcases List.mem_append.1 hk'' with h' | h'
+              · exact hnegs k h'
+              · obtain ⟨a, ha, rfl⟩ := List.mem_map.1 h'
+                exact hgrp [a] (by intro x hx; simp at hx; rw [hx]; exact hatoms a ha)
+            · exact hnb _ _ _ hsorted
+      · exact hnb _ _ _ hsorted
+theorem fixOk_negPairs : ∀ ks : List P, (∀ k ∈ ks, FixOk k) → ∀ p ∈ negPairs ks, FixOk p.2
+  | [], _ => by simp [negPairs]
+  | .leaf i b :: ks, h => by
+      simpa [negPairs] using fixOk_negPairs ks (fun k hk => h k (List.mem_cons_of_mem _ hk))
+  | .node i b s v ks' m :: ks, h => by
+      intro p hp
+      simp only [negPairs, List.mem_cons] at hp
+      rcases hp with rfl | hp
+      · exact fixOk_negate _ (h _ (by simp))
+      · exact fixOk_negPairs ks (fun k hk => h k (List.mem_cons_of_mem _ hk)) p hp
+end
+
+/-- **double negation under the node-fixing rule**: negating the negation gives back a model that evaluates like the
+    original, fixed nodes included -/
+theorem negate_negate_fx (σ : String → Int) (i b s v ks) (m : Meta) (hg : Good σ (.node i b s v ks m))
+    (hf : FixOk (.node i b s v ks m)) :
+    eF σ (negate (negate (.node i b s v ks m))) = eF σ (.node i b s v ks m) := by
+  have h1 := negate_compl_fx σ (.node i b s v ks m) hg.1 hg.2 hf rfl
+  have hg' := good_negate σ _ hg
+  have h2 := negate_compl_fx σ (negate (.node i b s v ks m)) hg'.1 hg'.2 (fixOk_negate _ hf) (negate_isLeaf i b s v ks m)
+  rw [h2, h1]; omega
+
 /-- non-vacuity / regression witness of finding F05b: `Any(All('a','b', variable=A fixed to 1), 'c', variable='T')` is true
     whatever the leaves say; its negation is false (it was true at c = 0 before the repair) -/
 example :
